@@ -538,7 +538,7 @@ FLT_POOL = [0.0, 0.5, 1.0, 1.5, 2.0, -0.5, 0.25, 3.0, 10.0, 0.1, 1e10, 1e100, 2.
 class ProgramGen:
     def __init__(self, rng, profile=None):
         self.rng = rng
-        self.pf = dict(floats=True, meta=True, errors=True, goto=True, strings=True, coerce=True, level2=True)
+        self.pf = dict(floats=True, meta=True, errors=True, goto=True, strings=True, coerce=True, level2=True, stage4=False)
         if profile:
             self.pf.update(profile)
         self.scopes = [[]]
@@ -944,7 +944,7 @@ class ProgramGen:
             (4, self.s_callstat), (3, self.s_closure_loop), (4, self.s_seq), (4, self.s_rec), (3, self.s_obj),
             (4, self.s_meta), (5, self.s_pcall), (2, self.s_goto), (4, self.s_varargs), (2, self.s_tailrec),
             (2, self.s_multi), (2, self.s_break), (2, self.s_forfloat), (2, self.s_xpcall), (2, self.s_method_str),
-            (2, self.s_iter_closure), (2, self.s_const), (1, self.s_return_early),
+            (2, self.s_iter_closure), (2, self.s_const), (1, self.s_return_early), (4, self.s_close), (5, self.s_co),
         ]
         tot = sum(w for w, _ in table)
         x = r.below(tot)
@@ -1218,7 +1218,7 @@ class ProgramGen:
             return None
         np = r.below(4)
         va = r.chance(1, 4)
-        nret = r.choice([1, 1, 1, 2, 3, 0])
+        nret = r.choice([1, 1, 1, 2, 3, 0, 4, 5])
         rets = [r.choice(["int", "int", "str"]) for _ in range(nret)]
         pure = r.chance(1, 3) or self.pure
         name = self.fresh("f")
@@ -1519,7 +1519,7 @@ class ProgramGen:
             body = body[:-1]
         body.append(self.emit_stat([Str("in"), Int(depth)]))
         if kind is None:
-            body.append(Return(*[self.exp(r.choice(["int", "str"]), 1, False, True) for _ in range(r.below(4))]))
+            body.append(Return(*[self.exp(r.choice(["int", "str"]), 1, False, True) for _ in range(r.below(7))]))
         else:
             where = r.below(4)
             rs = self.raise_stats(kind)
@@ -1559,6 +1559,9 @@ class ProgramGen:
             inner = fn
             fn = Fn([], False, [Local(["a", "b"], [Call(Var("pcall"), inner)]), self.emit_stat([Str("inner"), Var("a"), Var("b")]),
                                 Return(Var("a"), Var("b"))])
+        if kind is None and r.chance(1, 2):
+            self.feat("pcall:all-results")
+            return [self.emit_stat([Str("res"), Call(Var("pcall"), fn)])]
         out.append(Local([ok, e], [Call(Var("pcall"), fn)]))
         self.declare(V(ok, "bool", mutable=False))
         self.declare(V(e, "any", mutable=False))
@@ -1655,7 +1658,7 @@ class ProgramGen:
         else:
             g = "g"
             body = [LocalFn(g, Fn(["x"], True, [Return(Dots(), Var("x"))])), Return(Call(Var(g), Dots()))]
-        nargs = r.below(4)
+        nargs = r.below(4) if r.chance(2, 3) else 4 + r.below(4)
         args = [self.exp(r.choice(["int", "str", "any"] if k not in (1, 2) else ["int", "str"]), 1, False, True) for _ in range(nargs)]
         if k == 3 and nargs < 2:
             args += [Int(1), Int(2)]
@@ -1683,6 +1686,108 @@ class ProgramGen:
                 Assign([Var(f)], [Fn(["n"], False, [If([(Bin("eq", Var("n"), Int(0)), [Return(TrueE())])], None), Return(Call(Var(g), Bin("sub", Var("n"), Int(1))))])]),
                 Assign([Var(g)], [Fn(["n"], False, [If([(Bin("eq", Var("n"), Int(0)), [Return(FalseE())])], None), Return(Call(Var(f), Bin("sub", Var("n"), Int(1))))])]),
                 self.emit_stat([Call(Var(f), n)])]
+
+
+    mk_close = None
+
+    def closer(self, tag):
+        """an object whose __close handler emits ("close", tag, type of the error argument)"""
+        return Call(Var("setmetatable"), Tab(), Tab(FNamed("__close", Fn(["o", "e"], False, [self.emit_stat([Str("close"), tag, Call(Var("type"), Var("e"))])]))))
+
+    def s_close(self):
+        r = self.rng
+        if not self.pf["stage4"] or self.pure or self.block_depth > 2 or self.fn_level > 1:
+            return None
+        k = r.below(9)
+        self.feat("close:%d" % k)
+        em = lambda *a: self.emit_stat(list(a))
+        c, d, f, i = self.fresh("c"), self.fresh("c"), self.fresh("f"), self.fresh("i")
+        self.nlabel += 1
+        lab = "L%d" % self.nlabel
+        if k == 0:
+            return [Do([Local([c], [self.closer(Int(1))], ["close"])] + self.block(1 + r.below(2)) + [em(Str("body-end"))]), em(Str("after"))]
+        if k == 1:
+            return [For(i, Int(1), Int(3), None, [Local([c], [self.closer(Var(i))], ["close"]),
+                                                   If([(Bin("eq", Var(i), Int(2)), [Break()])], None), em(Str("it"), Var(i))])]
+        if k == 2:
+            return [LocalFn(f, Fn([], False, [Local([c], [self.closer(Int(1))], ["close"]), Local([d], [self.closer(Int(2))], ["close"]),
+                                              Return(Call(Var("emit"), Str("ret"), Int(7)))])), em(Call(Var(f)))]
+        if k == 3:
+            return [em(Call(Var("type"), Call(Var("select"), Int(2), Call(Var("pcall"), Fn([], False, [
+                Local([c], [self.closer(Int(1))], ["close"]), em(Str("body")), SCall(Call(Var("error"), Tab()))])))))]
+        if k == 4:
+            return [Do([Local([c], [self.closer(Int(1))], ["close"]), em(Str("body")), Goto(lab)]), em(Str("skipped")), Label(lab), em(Str("after"))]
+        if k == 5:
+            bad = Call(Var("setmetatable"), Tab(), Tab(FNamed("__close", Fn(["o", "e"], False, [em(Str("bad-close"), Call(Var("type"), Var("e"))), SCall(Call(Var("error"), Str("in close"), Int(0)))]))))
+            return [em(Call(Var("pcall"), Fn([], False, [Local([c], [self.closer(Int(1))], ["close"]), Local([d], [bad], ["close"]), em(Str("body"))])))]
+        if k == 6:
+            return [Do([Local([c], [r.choice([Nil(), FalseE()])], ["close"]), em(Str("nil-close"), Var(c))])]
+        if k == 7:
+            it = self.fresh("it")
+            return [LocalFn(it, Fn(["s", "q"], False, [If([(Bin("lt", Var("q"), Var("s")), [Return(Bin("add", Var("q"), Int(1)))])], None)])),
+                    ForIn([i], [Var(it), Int(3), Int(0), self.closer(Str("for"))], [em(Str("it"), Var(i))] + ([If([(Bin("eq", Var(i), Int(2)), [Break()])], None)] if r.chance(1, 2) else [])),
+                    em(Str("after-for"))]
+        return [For(i, Int(1), Int(2), None, [Local([c], [self.closer(Var(i))], ["close"]), If([(Bin("eq", Var(i), Int(1)), [Goto(lab)])], None), em(Str("it"), Var(i)), Label(lab)])]
+
+    def s_co(self):
+        r = self.rng
+        if not self.pf["stage4"] or self.pure or self.block_depth > 2 or self.fn_level > 0:
+            return None
+        k = r.below(10)
+        self.feat("coroutine:%d" % k)
+        em = lambda *a: self.emit_stat(list(a))
+        co, g = self.fresh("co"), self.fresh("gen")
+        CO = lambda f, *a: Call(Fld(Var("coroutine"), f), *a)
+        if k == 0:
+            body = Fn(["a", "b"], False, [em(Str("start"), Var("a"), Var("b")),
+                                          Local(["x", "y"], [CO("yield", Bin("add", Var("a"), Var("b")))]), em(Str("got"), Var("x"), Var("y")),
+                                          Local(["z"], [CO("yield", Bin("mul", Var("x"), Int(2)), Str("second"))]), Return(Str("end"), Var("z"))])
+            return [Local([co], [CO("create", body)]), em(CO("status", Var(co))), em(CO("resume", Var(co), self.exp("int", 1, False, True), Int(2))),
+                    em(CO("status", Var(co))), em(CO("resume", Var(co), Int(10), Int(20))), em(CO("resume", Var(co), Int(5))),
+                    em(CO("status", Var(co))), em(CO("resume", Var(co)))]
+        if k == 1:
+            n = 1 + r.below(4)
+            return [Local([g], [CO("wrap", Fn([], False, [For("i", Int(1), Int(n), None, [SCall(CO("yield", Var("i"), Bin("mul", Var("i"), Var("i"))))])]))]),
+                    ForIn(["v", "w"], [Var(g)], [em(Var("v"), Var("w"))])]
+        if k == 2:
+            return [Local([co], [CO("create", Fn([], False, [em(Str("in")), SCall(Call(Var("error"), Tab(FNamed("code", Int(1)))))]))]),
+                    Local(["ok", "e"], [CO("resume", Var(co))]), em(Var("ok"), Call(Var("type"), Var("e")), And(Bin("eq", Call(Var("type"), Var("e")), Str("table")), Fld(Var("e"), "code")), CO("status", Var(co))),
+                    em(CO("resume", Var(co)))]
+        if k == 3:
+            inner = Fn([], False, [Local(["rr"], [CO("yield", Int(1))]), SCall(Call(Var("error"), Bin("concat", Str("after "), Var("rr")), Int(0)))])
+            return [Local([co], [CO("create", Fn([], False, [Local(["ok", "v"], [Call(Var("pcall"), inner)]), em(Str("caught"), Var("ok"), Var("v")), Return(Str("done"))]))]),
+                    em(CO("resume", Var(co))), em(CO("resume", Var(co), Str("x"))), em(CO("status", Var(co)))]
+        if k == 4:
+            outer = self.fresh("co")
+            return [em(CO("isyieldable"), Call(Var("select"), Int(2), CO("running"))),
+                    Local([outer], []),
+                    Local([co], [CO("create", Fn([], False, [em(Str("inner"), CO("status", Var(outer)), CO("status", Var(co)), CO("isyieldable"), Call(Var("select"), Int(2), CO("running"))),
+                                                             em(Bin("eq", CO("running"), Var(co)))]))]),
+                    Assign([Var(outer)], [CO("create", Fn([], False, [em(Str("outer"), CO("status", Var(outer))), em(CO("resume", Var(co))), em(CO("status", Var(co)))]))]),
+                    em(CO("resume", Var(outer))), em(CO("status", Var(outer)), CO("status", Var(co)))]
+        if k == 5:
+            return [Local([co], [CO("create", Fn([], False, [
+                Local(["t"], [Call(Var("setmetatable"), Tab(), Tab(FNamed("__index", Fn(["t", "key"], False, [Return(CO("yield", Var("key")))]))))]),
+                em(Str("v"), Fld(Var("t"), "foo")),
+                ForIn(["x"], [Fn([], False, [Return(CO("yield", Str("iter")))])], [em(Str("x"), Var("x"))])]))]),
+                    em(CO("resume", Var(co))), em(CO("resume", Var(co), Int(42))), em(CO("resume", Var(co), Int(7))), em(CO("resume", Var(co), Nil())), em(CO("status", Var(co)))]
+        if k == 6:
+            return [em(Call(Var("pcall"), Fld(Var("coroutine"), "yield"), Int(1))),
+                    Local([co], []), Assign([Var(co)], [CO("create", Fn([], False, [em(CO("resume", Var(co))), Return(Int(1))]))]), em(CO("resume", Var(co)))]
+        if k == 7:
+            return [Local([co], [CO("create", Fn([], False, [SCall(CO("yield", Int(1))), em(Str("never"))]))]), em(CO("resume", Var(co))), em(CO("close", Var(co))),
+                    em(CO("status", Var(co))), em(CO("resume", Var(co))), em(CO("close", CO("create", Fn([], False, []))))]
+        if k == 8:
+            # producer / consumer through wrap with arguments flowing both ways; closures over loop variables inside the coroutine
+            return [Local([g], [CO("wrap", Fn(["a"], True, [Local(["acc"], [Var("a")]),
+                                                             While(TrueE(), [Local(["x"], [CO("yield", Var("acc"), Call(Var("select"), Str("#"), Dots()))]),
+                                                                             If([(Bin("eq", Var("x"), Nil()), [Return(Str("fin"), Var("acc"))])], None),
+                                                                             Assign([Var("acc")], [Bin("add", Var("acc"), Var("x"))])])]))]),
+                    em(Call(Var(g), Int(1), Int(2), Int(3))), em(Call(Var(g), Int(10))), em(Call(Var(g), Int(100))), em(Call(Var(g)))]
+        # wrap: error with a non-string value propagates to the caller's pcall
+        return [Local([g], [CO("wrap", Fn([], False, [SCall(CO("yield", Int(1))), SCall(Call(Var("error"), Tab(FNamed("code", Int(5)))))]))]),
+                em(Call(Var(g))), Local(["ok", "e"], [Call(Var("pcall"), Var(g))]), em(Var("ok"), And(Bin("eq", Call(Var("type"), Var("e")), Str("table")), Fld(Var("e"), "code"))),
+                em(Call(Var("pcall"), Var(g)))]
 
     def s_const(self):
         x = self.fresh("k")
@@ -1902,7 +2007,7 @@ class ErrorGen(ProgramGen):
              "meta-call", "meta-eq", "meta-lt", "meta-concat", "meta-len", "meta-unm", "operand", "argument", "ctor", "methodarg",
              "concat", "cond", "key", "tailcall", "retparen", "vararg", "andor", "upvalue-fn", "rhs-multi"]
     CATCHES = ["pcall", "pcall-args", "xpcall-id", "xpcall-wrap", "xpcall-none", "xpcall-multi", "rethrow", "pcall-pcall", "inner-caught",
-               "xpcall-in-pcall", "pcall-in-xpcall", "select-results", "pcall-method"]
+               "xpcall-in-pcall", "pcall-in-xpcall", "select-results", "pcall-method", "resume", "wrap-pcall", "resume-in-pcall"]
 
     def __init__(self, rng, profile=None):
         super().__init__(rng, profile)
@@ -1928,7 +2033,7 @@ class ErrorGen(ProgramGen):
         if val in ("table", "function"): return [SCall(Call(Var("error"), Var(E), *([Int(r.choice([0, 1, 2]))] if r.chance(1, 2) else [])))]
         if val == "assert-tab": return [SCall(Call(Var("assert"), r.choice([FalseE(), Nil()]), Var(E)))]
         if val == "assert-int": return [SCall(Call(Var("assert"), FalseE(), Int(77), Int(78)))]
-        d = {"rt-arith": Bin(r.choice(["add", "sub", "mul", "div", "mod", "idiv", "pow"]), Var(n), Int(1)),
+        d = {"rt-arith": Bin(r.choice(["add", "sub", "mul", "div", "mod", "idiv"] + (["pow"] if self.pf.get("pow_error") else [])), Var(n), Int(1)),
              "rt-call": Call(Var(n), Int(1)), "rt-index": Fld(Var(n), "f"),
              "rt-concat": Bin("concat", Var(n), Str("x")), "rt-compare": Bin(r.choice(["lt", "le", "gt", "ge"]), Var(n), Int(1)),
              "rt-len": Un("len", Var(n)),
@@ -2018,6 +2123,10 @@ class ErrorGen(ProgramGen):
         val = val or r.choice(self.VALUES)
         site = site or r.choice(self.SITES)
         catch = catch or r.choice(self.CATCHES)
+        if catch in ("resume", "wrap-pcall", "resume-in-pcall") and not self.pf["stage4"]:
+            catch = "pcall"
+        if catch == "wrap-pcall" and (val.startswith("str") or val.startswith("rt-") or val == "strdef"):
+            catch = "resume"        # what coroutine.wrap does to string errors is not fixed by the manual
         if val == "flt" and not self.pf["floats"]:
             val = "int"
         if val == "str2" and site in ("tailcall", "direct", "iterator", "retparen") and not self.pf.get("level2_any"):
@@ -2089,6 +2198,16 @@ class ErrorGen(ProgramGen):
         elif catch == "pcall-in-xpcall":
             inner = Fn([], False, [Local(["a", "b"], [Call(Var("pcall"), fn)]), em(Str("inner"), Var("a")), SCall(Call(Var("error"), Var("b"), Int(0)))])
             out.append(Local([ok, e], [Call(Var("xpcall"), inner, hid)]))
+        elif catch == "resume":
+            out.append(Local([F], [Call(Fld(Var("coroutine"), "create"), fn)]))
+            out.append(Local([ok, e], [Call(Fld(Var("coroutine"), "resume"), Var(F))]))
+            out.append(em(Call(Fld(Var("coroutine"), "status"), Var(F))))
+        elif catch == "wrap-pcall":
+            out.append(Local([ok, e], [Call(Var("pcall"), Call(Fld(Var("coroutine"), "wrap"), fn))]))
+        elif catch == "resume-in-pcall":
+            inner = Fn([], False, [Local(["co"], [Call(Fld(Var("coroutine"), "create"), fn)]), Local(["a", "b"], [Call(Fld(Var("coroutine"), "resume"), Var("co"))]),
+                                   em(Str("inner"), Var("a")), SCall(Call(Var("error"), Var("b"), Int(0)))])
+            out.append(Local([ok, e], [Call(Var("pcall"), inner)]))
         elif catch == "select-results":
             out.append(Local([ok, e], [Call(Var("select"), Int(1), Call(Var("pcall"), fn))]))
             out.append(em(Call(Var("select"), Str("#"), Call(Var("pcall"), Fn([], False, [Return(Int(1), Int(2), Int(3))])))))
